@@ -145,7 +145,7 @@ impl Extension {
     /// # Warning 
     /// Extension should always be created using new 
     pub fn new(id : u16,  data : &[u8]) -> Result<Self,NewExtensionError>{
-        if id > SECOND_RANGE_PTYPE {
+        if id >= SECOND_RANGE_PTYPE {
             return Err(NewExtensionError::IncorrectExtensionId)
         }
         if id < MAX_MANDATORY_VAL_PTYPE {
